@@ -128,7 +128,7 @@ def parseSite (s : String) : Option PSite :=
   | _ => none
 
 def globalKinds : List String :=
-  ["sb", "rwsb", "sbc", "sbtd", "sbreg", "sbarr", "rwsbarr", "sbarr2", "sbarru", "sbbl", "sbtdarr", "sbarrtd", "sbmem",
+  ["sb", "rwsb", "sbc", "sbtd", "sbreg", "sbarr", "rwsbarr", "sbarr2", "sbarru", "sbbl", "sbtdarr", "sbarrtd", "sbarrtd2", "sbmem",
    "sbparam", "cb", "cbuf", "gv", "gs", "st"]
 def fnKinds : List String :=
   ["bload", "bload2", "rwbload", "rwbload2", "rwbstore", "rwbstoret", "baload", "rwbaload", "rwbastore", "rwbastoret"]
@@ -150,6 +150,8 @@ def globalOf (kind : String) (r : TyRef) : Option GTy :=
   else if kind == "sbarr2" then some (.array (.array sb))
   else if kind == "sbtdarr" then some (.modifier (.array (.object "StructuredBuffer" (some r))))
   else if kind == "sbarrtd" then some (.array (.modifier (.array (.object "StructuredBuffer" (some r)))))
+  else if kind == "sbarrtd2" then
+    some (.array (.modifier (.array (.modifier (.array (.object "StructuredBuffer" (some r)))))))
   else if kind == "cb" then some (.modifier (.object "ConstantBuffer" (some r)))
   else if kind == "sbparam" then none
   else some .other
